@@ -1391,7 +1391,7 @@ impl Monitor for Ics {
     }
     fn rule(&self) -> &'static str {
         match self.prop {
-            "C11" => "seeded random histories on cw20-ics20 inside a cw-multi-test App (real bank, three real cw20-base tokens, one behind a fault-injecting wrapper) with 2-3 channels; the IBC shim forwards to the real ibc_* entry points and cw-multi-test runs the payout sub-messages and the real reply. User transfers (bank and cw20 Send), direct Receive calls, honest voucher returns and MALICIOUS incoming packets (foreign denom, other port/channel prefix, amount above outstanding, garbage, unknown channel), one ack(success|error) or timeout per sent packet in random order, payout faults (bad receiver, failing cw20, failing bank). After every step real holdings are compared with the sum of reported channel balances and a per-channel escrowed/paid-out ledger. distinct = (operation, outcome, ack kind, cw20 fault on?, bank fault on?, default gas set?, migrated from)",
+            "C11" => "seeded random histories on cw20-ics20 inside a cw-multi-test App (real bank, three real cw20-base tokens, one behind a fault-injecting wrapper) with 2-3 channels; the IBC shim forwards to the real ibc_* entry points and cw-multi-test runs the payout sub-messages and the real reply. User transfers (bank and cw20 Send), direct Receive calls, honest voucher returns and MALICIOUS incoming packets (foreign denom, other port/channel prefix, amount above outstanding, garbage, unknown channel), one ack(success|error) or timeout per sent packet in random order, payout faults (bad receiver, failing cw20, failing bank). After every step real holdings are compared with the sum of reported channel balances and a per-channel escrowed/paid-out ledger. Every third history is put into a legacy storage layout and upgraded through the real migrate (every fourth of those with several channels, which the migration must refuse or else keep per-channel solvency); native denoms include case variants of the cw20 encoding (CW20:<token>) and a factory denom containing it. distinct = (operation, outcome, ack kind, cw20 fault on?, bank fault on?, default gas set?, migrated from)",
             "C12" => "same world with an HONEST counterparty (returns only vouchers it holds). A per-(channel, denom) ledger sent / failed-or-timed-out / redeemed is compared with Channel{id} after every step; every error acknowledgement is checked to leave channel balances, escrow and all user balances untouched; every accepted transfer's recorded IbcMsg::SendPacket is decoded and compared (amount, denom, true sender, receiver, memo, timeout). Every third history rewrites the storage into the v1 (pre-allow-list) or v2 layout with tokens outstanding and in flight, runs the real migrate and continues. distinct = (operation, outcome, ack kind, cw20 fault on?, bank fault on?, default gas set?, migrated from)",
             _ => "same world with a governance-heavy op mix: Allow (new, raise, equal, lower, limit-an-unlimited, bad address) and UpdateAdmin by governance, former governance and strangers, migrate with/without default gas limit by the chain admin and strangers, cw20 transfers of listed and unlisted tokens, redemptions and refunds. ListAllowed/Config/Admin are compared before/after every step and the gas_limit of every payout sub-message logged by the shim is compared with the token's entry or the default. distinct = (operation, outcome, ack kind, cw20 fault on?, bank fault on?, default gas set?, migrated from)",
         }
